@@ -181,7 +181,7 @@ inductive LEv
   | insPut (t : Tx)     -- pool.all[hash] = tx; pool.priced.Put(tx)
   | insIfNew (t : Tx)   -- promoteTx's failsafe: only when the hash is not in `all`
   | del (t : Tx)        -- delete(pool.all, hash); pool.priced.Removed()
-deriving Repr
+deriving Repr, DecidableEq
 
 structure Ledger where
   all    : List Tx
@@ -392,6 +392,31 @@ def CPool.reset (c : CPool) (v : View) (oldNum newNum : Nat) (reorg : Bool) (dis
 
 def CPool.evictIdle (c : CPool) (a : Addr) : CPool :=
   if c.pool.isLocal a then c else c.with (c.pool.dropQueued a (c.pool.queue a).items) (evDropQueued c.pool (c.pool.queue a).items)
+
+/-- operations of the concrete machine: as `Op`, but without eviction victims (the heap supplies them) -/
+inductive COp
+  | add (t : Tx) (loc : Bool) (sh : Shape) (slots qorder : List Addr)
+  | adds (ts : List Tx) (loc : Bool) (slots qorder : List Addr)
+  | setGasPrice (p : Nat)
+  | reset (v : View) (oldNum newNum : Nat) (reorg : Bool) (disc inc : List Tx) (slots1 qorder1 slots2 qorder2 : List Addr)
+  | evictIdle (a : Addr)
+
+/-- one step of the concrete machine, together with the operation of the oracle machine it amounts to (the victims the heap
+    chose filled in) -/
+def CPool.step (c : CPool) : COp → Op × CPool
+  | .add t loc sh sl qo =>
+    let r := c.addTx t loc sh sl qo
+    (.add t loc sh r.2.1 sl qo, r.2.2)
+  | .adds ts loc sl qo =>
+    let r := c.addTxs ts (loc && !c.pool.cfg.noLocals) sl qo
+    (.adds ts loc r.2.1 sl qo, r.2.2)
+  | .setGasPrice p =>
+    let r := c.setGasPrice p
+    (.setGasPriceO p r.1, r.2)
+  | .reset v o n rg d i sl1 qo1 sl2 qo2 =>
+    let r := c.reset v o n rg d i sl1 qo1 sl2 qo2
+    (.reset v o n rg d i ⟨r.1, sl1, qo1, sl2, qo2⟩, r.2)
+  | .evictIdle a => (.evictIdle a, c.evictIdle a)
 
 /-- NewTxPool -/
 def CPool.init (cfg : Cfg) (v : View) : CPool := ⟨Pool.init cfg v, { items := [], stales := 0 }⟩
